@@ -578,21 +578,33 @@ impl Read for PieceSource {
 pub struct GenSource {
     left: usize,
     rng: Option<Rng>,
+    /// Some(p): byte i of the piece is i % p (as Data::Period)
+    period: Option<usize>,
+    pos: usize,
 }
 
 impl GenSource {
     pub fn new(n: usize, seed: Option<u64>) -> Self {
-        GenSource { left: n, rng: seed.map(Rng::new) }
+        GenSource { left: n, rng: seed.map(Rng::new), period: None, pos: 0 }
+    }
+    pub fn periodic(n: usize, p: usize) -> Self {
+        GenSource { left: n, rng: None, period: Some(p.max(1)), pos: 0 }
     }
 }
 
 impl Read for GenSource {
     fn read(&mut self, buf: &mut [u8]) -> io::Result<usize> {
         let n = buf.len().min(self.left);
-        match self.rng.as_mut() {
-            Some(r) => r.fill(&mut buf[..n]),
-            None => buf[..n].fill(0),
+        match (self.rng.as_mut(), self.period) {
+            (Some(r), _) => r.fill(&mut buf[..n]),
+            (None, Some(p)) => {
+                for (k, b) in buf[..n].iter_mut().enumerate() {
+                    *b = ((self.pos + k) % p) as u8;
+                }
+            }
+            (None, None) => buf[..n].fill(0),
         }
+        self.pos += n;
         self.left -= n;
         log_seam(b'p', buf.len() as u64, n as u64);
         Ok(n)
